@@ -15,6 +15,12 @@ var registry = []prop{
 		Assume: pbfAssume,
 	},
 	{
+		ID: "C02", Pkg: "props/c02", Level: "exploration", Race: true, Hang: true,
+		Quick:  tierCfg{Shards: 1, Scale: 1, TimeoutS: 400},
+		Thor:   tierCfg{Shards: 8, Scale: 6, TimeoutS: 2400},
+		Assume: append([]string{"schedules are sampled by perturbing reader, decoder callbacks, consumer and GOMAXPROCS; the OS scheduler is not controlled", "the Go race detector reports every unsynchronised conflicting access it observes on the executed schedules"}, pbfAssume...),
+	},
+	{
 		ID: "C06", Pkg: "props/c06", Level: "fault_enumeration", Hang: true,
 		Quick:  tierCfg{Shards: 1, Scale: 1, TimeoutS: 400},
 		Thor:   tierCfg{Shards: 1, Scale: 12, TimeoutS: 3000},
